@@ -13,8 +13,10 @@ import Driver.Prot
 import Driver.Tls
 import Driver.Adapter
 import Driver.Flow
+import Driver.CHelpers
 
 structure World where
+  chelpers : Drv.CW := {}
   flow : Drv.FlowW := {}
   adp : Drv.AdpW := {}
   tls : Drv.TlsW := {}
@@ -82,6 +84,9 @@ def step (w : World) (line : String) : World × String :=
     else if t.startsWith "flow." then
       let (s, o) := Drv.stepFlow w.flow toks
       ({ w with flow := s }, o)
+    else if t.startsWith "c." then
+      let (s, o) := Drv.stepC w.chelpers toks
+      ({ w with chelpers := s }, o)
     else (w, "bad-op")
 
 partial def loop (hin hout : IO.FS.Stream) (w : World) : IO Unit := do
